@@ -592,6 +592,23 @@ func (x *Exec) checkPost(u *Unit, e, entry *State, mk func(*State, bool) *CEnv, 
 	}
 	x.applySets(e, env, pc, n)
 	x.applyGSets(e, env, pc, n)
+	// panics_when is exact: a normal return means none of its conditions held at entry
+	// (call sites rely on that)
+	for i, c := range pc.PanicsWhen {
+		penv := mk(entry, false)
+		penv.old = entry
+		for k2, v := range env.names {
+			if _, has := penv.names[k2]; !has && !strings.HasPrefix(k2, "result") {
+				penv.names[k2] = v
+			}
+		}
+		t, err := x.cevalSafe(penv, c, "Bool")
+		if err != nil {
+			x.contractError(e, fmt.Sprintf("panics_when:%d", i), err, n)
+			continue
+		}
+		x.oblige(e, "panic-exact", fmt.Sprintf("%d", i), tNot(t), n, "returns normally only when the panic condition does not hold: "+c.Src)
+	}
 	if env.impl != nil {
 		// object invariant is re-established
 		for i, c := range env.impl.ic.ObjInv {
